@@ -85,14 +85,14 @@ class C08(core.Check):
     design_ref = "DESIGN.md §5 C08"
     technique = ("Lean 4 theorems over a model of Tymer and MonoTimer (any op sequence, any clock-reading sequence) + regenerated class defaults "
                  "+ differential run of the compiled model against the real classes under a scripted tymist / scripted time.time()")
-    level_text = ("Lean theorems, unconditional, over every linearly ordered commutative ring of time values (Int and Rat instances stated): tymer_reports_exactly (for every pair of tymists, constructor call and EVERY sequence of tyme assignments incl. rewinds, ticks, start/restart with or without duration/start, re-winding, each reported start/duration/elapsed/remaining/expired equals the reference timer's now-start, start+duration-now, now>=start+duration; refinement proof), tymer_restart_at_previous_stop, tymer_restarts_lossless (k restarts amid arbitrary tyme changes keep the period grid start0+k*duration), mono_elapsed_never_decreases and mono_expired_never_reverts (every timer state, retro or not, every clock, every reading sequence), mono_measures_exactly (a retro MonoTimer started at the clock, after any readings and restarts, reports elapsed = sum of non-negative increments - k*duration, remaining, expired accordingly), mono_start_forgets_the_past. Model = repaired code (2 fix: commits). Tied to the classes by a differential run on op lists under a scripted tymist / scripted time.time(); class defaults re-extracted on every run. Extension: Timer/AsyncTimer (plain timers, the one Doist.ado paces with) modelled and tied the same way; ptimer_monotone_on_monotone_clock (elapsed/expired monotone exactly when the clock does not go backwards, which the event-loop clock guarantees), ptimer_restart_at_previous_stop, ptimer_restarts_lossless. Rounding: raw-float streams ftymer/fmono are judged by float reference oracles only; open known finding C08-K1 (in doubles MonoTimer.elapsed can drop a few ulp on a retrograde; expired never reverts). Not modelled: the half-assigned state after Tymer.start() raises TypeError on an unwound tymer (trace stops there on both sides).")
+    level_text = ("Lean theorems, unconditional, over every linearly ordered commutative ring of time values (Int and Rat instances stated): tymer_reports_exactly (for every pair of tymists, constructor call and EVERY sequence of tyme assignments incl. rewinds, ticks, start/restart with or without duration/start, re-winding, each reported start/duration/elapsed/remaining/expired equals the reference timer's now-start, start+duration-now, now>=start+duration; refinement proof), tymer_restart_at_previous_stop, tymer_restarts_lossless (k restarts amid arbitrary tyme changes keep the period grid start0+k*duration), mono_elapsed_never_decreases and mono_expired_never_reverts (every timer state, retro or not, every clock, every reading sequence), mono_measures_exactly (a retro MonoTimer started at the clock, after any readings and restarts, reports elapsed = sum of non-negative increments - k*duration, remaining, expired accordingly), mono_start_forgets_the_past. Model = repaired code (2 fix: commits). Tied to the classes by a differential run on op lists under a scripted tymist / scripted time.time(); class defaults re-extracted on every run. Extension: Timer/AsyncTimer (plain timers, the one Doist.ado paces with) modelled and tied the same way; ptimer_monotone_on_monotone_clock (elapsed/expired monotone exactly when the clock does not go backwards, which the event-loop clock guarantees), ptimer_restart_at_previous_stop, ptimer_restarts_lossless. Rounding: raw-float streams ftymer/fmono are judged by float reference oracles only; open known finding C08-K1 (in doubles MonoTimer.elapsed can drop a few ulp on a retrograde; expired never reverts). Not modelled: the half-assigned state after Tymer.start() raises TypeError on an unwound tymer (trace stops there on both sides). Phase 3: rejected calls raise and change nothing (two more repairs: efaf005, 9dcb362), the trace continues after them; retro toggles, tymist tock assignment, sibling timers, raw-float Timer/AsyncTimer.")
     level_note = ("Trusted: Lean kernel + propext/Classical.choice/Quot.sound; the sampled correspondence (float arithmetic as Int on integers x 2^-10 s); MonoTimer with an explicit start value is covered by the monotonicity theorems and the correspondence only (no exactness claim: the code aliases ._last to the given start, pinned by the tree's test). Theorems over exact ordered rings, not IEEE doubles.")
     quick_n = 3000
     thorough_n = 150000
     rule = ("cases: (tymer ...) two Tymists, a Tymer wound to one/none, op list of tyme assignments (incl. rewinds), ticks, start/restart with and "
             "without duration/start, wind; (mono ...) MonoTimer under a scripted time.time() (steady, stalled, stepped back at every position incl. "
             "inside the constructor and exactly at start()), ops elapsed/remaining/expired/latest/duration/start/restart; (ptimer kind ...) Timer / AsyncTimer (fake event loop) likewise.  All values integers x 2^-10 s; "
-            "(ftymer ...), (fmono ...) raw non-dyadic floats, oracle only. "
+            "(ftymer ...), (fmono ...), (fptimer ...) raw non-dyadic floats, oracle only; every op list also carries rejected calls (arguments float() refuses), retro toggles, tymist tock assignments and calls on a sibling timer. "
             "non-trivial = at least 2 ops and (tymer: at least one start/restart/wind; mono: at least one backward clock step or one start/restart). distinct by request line")
     trusted_base = ["translator harness/extract/timer.py (Tymist.Tock, Tymer.Duration, MonoTimer retro default)",
                     "correspondence harness/props/C08.py + harness/areas/timer.py: compiled model driver vs hio.base.tyming.Tymer / hio.help.timing.MonoTimer on the same op lists",
@@ -123,6 +123,13 @@ class C08(core.Check):
             ("tymer", (0, 0, 32, 32), (None, None, None), (("restart", 5), ("wind", 1), ("tick", 1))),
             ("tymer", (10, 7, 1, 1), (0, 5, None), (("tyme", 0, 15), ("restart", None), ("tyme", 0, 3), ("restart", None), ("tyme", 0, 25))),
             ("tymer", (10, 7, 1, 1), (None, 5, None), (("start", None, None), ("tick", 0))),
+            # C08-H1 (fixed efaf005): a rejected start() on an unwound tymer must leave it usable
+            ("tymer", (5376, 2048, 1024, 1), (None, 0, None), (("start", 0, None),)),
+            ("tymer", (15, -9, 1, 32), (None, 15, None), (("start", None, None), ("wind", 1), ("tick", 1), ("restart", None))),
+            ("tymer", (0, 0, 32, 32), (0, 5, None), (("bad", "start-dur", 0), ("bad", "start-start", 1), ("bad", "restart-dur", 1), ("tock", 0, 96), ("tick", 0), ("other", "restart"), ("restart", None))),
+            # C08-H2 (fixed 9dcb362): a rejected MonoTimer.start() must not read the clock / move _last
+            ("mono", 0, (-3, 5, 6, -11, 4), (9, None, True), (("elapsed",), ("bad", "start-dur", 1), ("elapsed",))),
+            ("mono", 0, (0, 0, 4, -2, 3, 1), (5, None, True), (("elapsed",), ("retro", False), ("elapsed",), ("retro", True), ("other", "elapsed"), ("elapsed",))),
             # raw-float stream: expired must be tyme >= stop exactly, not elapsed >= duration (rounds differently)
             ("ftymer", 4.23, 50.0, (("tyme", 54.23),)),
             ("ftymer", 0.1, 0.7, (("tyme", 0.8), ("restart", None), ("tyme", 1.5), ("restart", 0.3), ("tyme", 1.8))),
@@ -154,6 +161,8 @@ class C08(core.Check):
                 yield T.gen_fmono(rng)
             elif r < 0.40:
                 yield T.gen_ptimer(rng)
+            elif r < 0.50:
+                yield T.gen_fptimer(rng)
             elif r < 0.35:
                 yield T.gen_tymer(rng)
             elif r < 0.45:
@@ -162,7 +171,7 @@ class C08(core.Check):
                 yield T.gen_mono(rng)
 
     def request(self, case):
-        if case[0] == "fmono":
+        if case[0] in ("fmono", "fptimer"):
             return T.wrapF(case)
         if case[0] != "ftymer":
             return case
@@ -170,7 +179,7 @@ class C08(core.Check):
         return w(case)
 
     def model_applies(self, case):
-        return case[0] not in ("ftymer", "fmono")      # raw (non-dyadic) floats: oracle only, the model's time is Int
+        return case[0] not in ("ftymer", "fmono", "fptimer")      # raw (non-dyadic) floats: oracle only, the model's time is Int
 
     def run_impl(self, case):
         if case[0] == "ftymer":
@@ -179,6 +188,8 @@ class C08(core.Check):
             return T.run_fmono(case)
         if case[0] == "ptimer":
             return T.run_ptimer(case)
+        if case[0] == "fptimer":
+            return T.run_fptimer(case)
         if case[0] == "tymer":
             return T.run_tymer(case)
         if case[0] == "mono":
@@ -192,6 +203,8 @@ class C08(core.Check):
             return T.oracle_fmono(case, obs)
         if case[0] == "ptimer":
             return T.oracle_ptimer(case, obs)
+        if case[0] == "fptimer":
+            return T.oracle_fptimer(case, obs)
         return T.oracle_tymer(case, obs) if case[0] == "tymer" else T.oracle_mono(case, obs)
 
     def known(self, case, obs, clauses):
@@ -225,7 +238,7 @@ class C08(core.Check):
         ops = case[-1]
         if case[0] == "fmono":
             return len(ops) >= 2 and any(d < 0 for d in case[2])
-        if case[0] == "ptimer":
+        if case[0] in ("ptimer", "fptimer"):
             return len(ops) >= 2
         if case[0] == "ftymer":
             return len(ops) >= 2
@@ -236,6 +249,8 @@ class C08(core.Check):
         return any(d < 0 for d in case[2]) or any(o[0] in ("start", "restart") for o in ops)
 
     def features(self, case, obs):
+        if case[0] == "fptimer":
+            return ["fptimer:" + case[1]]
         if case[0] == "ptimer":
             return ["ptimer:" + case[1]] + (["ptimer:backward-step"] if any(d < 0 for d in case[3]) else []) + \
                 (["ptimer:expired-seen"] if any(len(o) == 2 and o[0] is True for o in obs) else [])
@@ -273,6 +288,8 @@ class C08(core.Check):
         return f
 
     def shrink(self, case):
+        if case[0] == "fptimer":
+            return []
         if case[0] == "ptimer":
             return T.shrink_ptimer(case)
         if case[0] == "fmono":
@@ -285,7 +302,7 @@ class C08(core.Check):
     def mutate(self, rng, case):
         if case[0] == "ptimer":
             return list(T.shrink_ptimer(case))[:30]
-        if case[0] in ("ftymer", "fmono"):
+        if case[0] in ("ftymer", "fmono", "fptimer"):
             return []
         out = list(self.shrink(case))[:30]
         if case[0] == "mono":
